@@ -1,9 +1,15 @@
 """C07: check configuration (PROPS_ENTRY, consumed by ./check and gen_manifest.py) and the list of lemmas that make up
 the property file (SPEC_ENTRY, consumed by tools/mkprops.py)."""
-PROPS_ENTRY = {}
+PROPS_ENTRY = {'models': ['Model/Queue.v', 'Model/Owning.v'],
+ 'design_ref': 'DESIGN.md 3 C07',
+ 'assumptions': ['raw VirtQueue users keep the documented caller contract of pop_used (pass the buffers submitted for the token): it is a hypothesis of C07_pop_any_used_ring, not hidden',
+                 'memory safety means: no reachable call of an unsafe operation of the crate outside its documented precondition (unshare / dealloc of something not live, slice beyond its buffer); it is not a proof about the Rust abstract machine (aliasing, provenance)',
+                 'the Miri / sanitizer runs named in DESIGN.md are supporting tests and are not part of this check'],
+ 'trusted_extra': ['the instrumented platform (LedgerHal) reports every unshare / dealloc that does not match a live share / allocation; monitor kind 160 requires zero such reports under every adversarial device behaviour generated',
+                   'drivers other than the raw queue, OwningQueue and VirtIOInput are exercised adversarially by their own properties (C14-C18, C20)']}
 
 SPEC_ENTRY = {'title': 'A misbehaving device cannot corrupt driver state or cause invalid memory access',
- 'imports': ['Model.Queue', 'Proofs.QueueInv', 'Proofs.QueueReach', 'Proofs.QueueProps', 'Proofs.QueueNonInt'],
+ 'imports': ['Model.Queue', 'Model.Owning', 'Proofs.QueueInv', 'Proofs.QueueReach', 'Proofs.QueueProps', 'Proofs.QueueNonInt', 'Proofs.OwningProofs'],
  'theorems': [('C07_pop_any_used_ring',
                'Proofs/QueueProps.v',
                'pop_refines',
@@ -15,4 +21,9 @@ SPEC_ENTRY = {'title': 'A misbehaving device cannot corrupt driver state or caus
                'add_indep',
                'results, events and private state do not depend on the contents of descriptor table / available ring / flags / used_event'),
               ('C07_pop_noninterference', 'Proofs/QueueNonInt.v', 'pop_indep', None),
-              ('C07_query_noninterference', 'Proofs/QueueNonInt.v', 'queries_indep', None)]}
+              ('C07_query_noninterference', 'Proofs/QueueNonInt.v', 'queries_indep', None),
+              ('C07_owning_poll_any_device', 'Proofs/OwningProofs.v', 'poll_stocked',
+               'OwningQueue::poll ends in a result or an error for every used-ring content; every token it passes to pop_used heads an outstanding chain with exactly the buffer submitted for it (the queue stays stocked), and no slice longer than the buffer is delivered'),
+              ('C07_owning_prefix_refuted', 'Proofs/OwningProofs.v', 'poll_prefix_refuted',
+               'the behaviour before the repair is refuted: oversized length, then the same id again -> pop_used outside its contract, unshare of device address 0'),
+              ('C07_owning_fixed_on_witness', 'Proofs/OwningProofs.v', 'poll_fixed_on_witness', None)]}
